@@ -49,6 +49,7 @@ type tsPKI struct {
 	rootA, rootB, rootC *Chain // self-signed CA roots (single-cert chains minted as CAs)
 	chain               *Chain // leaf <- inter <- root
 	selfLeaf            *Chain // self-signed leaf (not a CA)
+	selfIssued          *Chain // leaf <- inter <- root, all three with the SAME subject name (self-issued, different keys)
 	decoy               *Chain
 }
 
@@ -59,7 +60,8 @@ func caOnly(tag string) *Chain {
 
 var tsPKIOnce = cachedAny("tsPKI", func() interface{} {
 	return &tsPKI{rootA: caOnly("tsA"), rootB: caOnly("tsB"), rootC: caOnly("tsC"), chain: StdChain("tsChain", 3, EC256),
-		selfLeaf: NewChain([]CertSpec{{Subject: name("ts-selfsigned-leaf")}}), decoy: caOnly("tsDecoy")}
+		selfLeaf: NewChain([]CertSpec{{Subject: name("ts-selfsigned-leaf")}}), decoy: caOnly("tsDecoy"),
+		selfIssued: NewChain([]CertSpec{{Subject: name("ts-self-issued")}, {Subject: name("ts-self-issued")}, {Subject: name("ts-self-issued")}})}
 })
 
 var anyCache = map[string]interface{}{}
@@ -107,6 +109,11 @@ func writeEntry(storeDir string, i int, kind string, pki *tsPKI, outside string)
 		return []*x509.Certificate{pki.selfLeaf.Leaf()}
 	case "leafNotSelfSigned":
 		must(os.WriteFile(fn, pemOf(pki.chain.Leaf()), 0644))
+	case "leafSelfIssued":
+		must(os.WriteFile(fn, pemOf(pki.selfIssued.Leaf()), 0644))
+	case "caSelfIssued":
+		must(os.WriteFile(fn, pemOf(pki.selfIssued.Certs[1]), 0644))
+		return []*x509.Certificate{pki.selfIssued.Certs[1]}
 	case "nonRootCA":
 		must(os.WriteFile(fn, pemOf(pki.chain.Certs[1]), 0644))
 		return []*x509.Certificate{pki.chain.Certs[1]}
@@ -151,10 +158,10 @@ func runTrustStoreFS() int {
 		}
 		must(os.WriteFile(filepath.Join(x509dir, "decoy-in-x509.crt"), pemOf(pki.decoy.Certs[0]), 0644))
 		typ := in.Type
-		nameStr := map[string]string{"plain": "acme", "dotted": "acme.v2-x_y", "withSep": "a/b", "dot": ".", "dotdot": "..", "empty": ""}[in.Name]
+		nameStr := map[string]string{"plain": "acme", "dotted": "acme.v2-x_y", "withSep": "a/b", "dot": ".", "dotdot": "..", "empty": "", "unicode": "caf\u00e9"}[in.Name]
 		var want []*x509.Certificate
 		// the store directory itself (only meaningful for a usable type and a plain name)
-		if typ != "" && (in.Name == "plain" || in.Name == "dotted") {
+		if typ != "" && (in.Name == "plain" || in.Name == "dotted" || in.Name == "unicode") { // (a store under the unusable unicode name exists, too)
 			storePath := filepath.Join(x509dir, typ, nameStr)
 			populate := func(d string) {
 				must(os.MkdirAll(d, 0755))
